@@ -31,6 +31,9 @@ PROP_FILES = ["HtmlVerif/Props/C18.lean"]
 WORKER = os.path.join(os.path.dirname(os.path.dirname(os.path.abspath(__file__))), "c18_worker.py")
 
 
+NOISE_STRINGS = ["sm", "lg", "card", "btn-primary", "x"]
+
+
 def battery(rng, n: int):
     from props import c10
     lines = []
@@ -85,6 +88,22 @@ def battery(rng, n: int):
             lines.append(f"render_tag {enode(('tag', 'div', True, [('title', ('p', s))] if rng.random() < 0.3 else [], [(role, s)]))} 0 {es(chr(10))}")
             other = {"text": "html", "html": "text", "robj": "text"}[role]
             lines.append(f"render_tag {enode(('tag', 'p', True, [], [(other, s), ('text', 'x')]))} 0 {es(chr(10))}")
+    # plain strings that the worker's interleaved noise also uses as values of a str SUBCLASS with a different str()
+    for sx in NOISE_STRINGS:
+        lines.append(f"render_tag {enode(('tag', 'div', True, [('class', ('p', sx)), ('title', ('p', sx))], [('text', sx)]))} 0 {es(chr(10))}")
+        lines.append("escape T " + es(sx))
+    # head_content payloads holding an invisible dependency, named while the global render mode is "json" and while it is not
+    try:
+        from props import c10 as _c10
+        for _ in range(max(4, n // 40)):
+            inner = _c10.mk_dep(rng.choice(["a", "b"]), rng.choice(["1.0", "2"]))
+            inner = _c10.finish_terms([("tag", "div", True, [], [inner])])[0][4][0]
+            payload = [("tag", "title", True, [], [("text", rng.choice(["T", "U"]))]), inner]
+            rng.shuffle(payload)
+            lines.append(f"head_content {enodes(payload)} 0")
+            lines.append(f"head_content_json {enodes(payload)} 0")
+    except Exception:  # noqa: BLE001
+        pass
     # values with several whitespace-separated tokens / declarations handed to the class and style helpers in one call
     # (an implementation that goes through a set shows hash-order dependence exactly here)
     try:
@@ -133,7 +152,8 @@ def run(tier: str) -> int:
     want = {str(i): hashlib.sha1(m.encode()).hexdigest() for i, m in enumerate(model)}
     seeds = ["0", "1", "2", "random"] if tier == "quick" else ["0", "1", "2", "3", "7", "42", "123456", "4294967295"] + ["random"] * 8
     orders = ["forward", "reverse", "shuffle"] if tier == "quick" else ["forward", "reverse", "shuffle", "shuffle2", "evens-first", "noise-heavy"]
-    noise = [l for l in battery(rng, 40)]
+    noise = [l for l in battery(rng, 40)] + ["noise_strsub " + es(sx) for sx in NOISE_STRINGS] * 2
+    rng.shuffle(noise)
     jobs = []
     for sd in seeds:
         for od in orders:
